@@ -233,6 +233,19 @@ def run(ctx):
                 f = dict(t[3])
                 ctx.check(norm(f["lifetime"])[0] == "param", "R3", "entry.lifetime<-parameter", ctx.where(fb, s["sp"]), show(f["lifetime"]))
                 ctx.check(norm(f["birth"])[0] == "call" and str(norm(f["birth"])[1]).endswith("Instant::now"), "R3", "entry.birth<-now", ctx.where(fb, s["sp"]), show(f["birth"]))
+                # the stored reply is the reply the lifetime was computed from: a copy of the parameter, untouched.  TTLs rewritten
+                # here (a cap, a floor) no longer agree with the lifetime the caller worked out from the originals, and the hit path
+                # subtracts the entry's age from them.
+                r = norm(f["reply"])
+                copied = r[0] == "call" and len(r[2]) == 1 and norm(r[2][0])[0] == "param" and (
+                    str(r[1]).endswith("clone_out_reply") or str(r[1]).rsplit("::", 1)[-1] == "clone")
+                rl = None
+                for o, fname in zip(s["rv"]["ops"], s["rv"]["fields"]):
+                    if fname == "reply" and op_place(o) and len(op_place(o)) == 1:
+                        rl = op_place(o)[0]
+                touched = touched_after_copy(P, fb, rl) if rl is not None else ["?"]
+                ctx.check(copied and not touched, "R3", "entry.reply<-the-reply-as-received", ctx.where(fb, s["sp"]),
+                          "the stored reply must be a copy of the upstream result, unmodified (is %s; modified at %s)" % (show(r)[:80], touched or "-"))
     # R4 key
     keys = list(find_aggs(P, "cache::CacheKey", [b]))
     ctx.floor("R4", "cache key construction", len(keys), 1)
